@@ -56,7 +56,7 @@ namespace nmtools::utl
         constexpr static_vector()
         {}
         constexpr static_vector(size_type n)
-            : size_(n)
+            : size_(n <= Capacity ? n : 0)
         {}
 
         template <typename...Ts>
